@@ -284,6 +284,33 @@ theorem earlier_effects_durable (c : Cfg) (pre : List (Stmt Act)) (plan : List (
     (fun s hs x => applyAct_objs_untouched _ n (hbody _ (stmt_mem_bodyAtoms hs)) x)
   simpa using this
 
+/-! ### several `configure()` calls in one env.py run: which settings does the k-th context get? -/
+
+/-- `transaction_per_migration` of a context is the argument of *its own* `configure()` call,
+    whatever earlier calls of the same env.py run passed. -/
+theorem configure_perMig_own (o : CtxOpts) (calls : List ConfigureArgs) (a : ConfigureArgs) :
+    (configureAll o (calls ++ [a])).perMig = a.perMig := by
+  simp [configureAll, configureCall]
+
+/-- Full statement for `transactional_ddl` (each context gets its own setting) ... -/
+def configure_tddl_own_statement : Prop :=
+  ∀ (dflt : Bool) (calls : List ConfigureArgs) (a : ConfigureArgs),
+    (effective dflt (configureAll {} (calls ++ [a]))).1 = (effective dflt (configureCall {} a)).1
+
+/-- ... is FALSE on the unchanged tree (known finding C04-F1): `transactional_ddl=True` given
+    to an earlier `configure()` stays in `context_opts` and is inherited by a later call that
+    does not pass the argument. -/
+theorem configure_tddl_own_counterexample : ¬ configure_tddl_own_statement := by
+  intro h
+  have := h false [{ tddl := some true, perMig := false }] { tddl := none, perMig := false }
+  revert this
+  decide
+
+/-- What does hold: a call that *passes* `transactional_ddl` gets what it passed. -/
+theorem configure_tddl_own_partial (o : CtxOpts) (calls : List ConfigureArgs) (a : ConfigureArgs) (b : Bool)
+    (h : a.tddl = some b) : (configureAll o (calls ++ [a])).tddl = some b := by
+  simp [configureAll, configureCall, h]
+
 /-! ### non-vacuity: the hypotheses are satisfiable, the checker rejects bad observations -/
 
 section Examples
